@@ -47,15 +47,15 @@ type schedOut struct {
 }
 
 type schedBatch struct {
-	runs        int
-	stats       map[string]int64
-	switchSeqs  map[string]bool
-	hashes      map[string]bool
-	violations  []*schedOut
-	races       []raceHit
-	err         string
-	samples     []json.RawMessage
-	wall        time.Duration
+	runs       int
+	stats      map[string]int64
+	switchSeqs map[string]bool
+	hashes     map[string]bool
+	violations []*schedOut
+	races      []raceHit
+	err        string
+	samples    []json.RawMessage
+	wall       time.Duration
 }
 
 type raceHit struct {
@@ -415,33 +415,33 @@ func checkC18(ca *checkArgs) int {
 	ev := map[string]interface{}{
 		"property_id": "C18", "tier": ca.tier, "seed": ca.seed, "level": "exploration",
 		"coverage": map[string]interface{}{
-			"evaluations":         pb.runs + rb.runs,
-			"distinct_nontrivial": len(pb.switchSeqs) + len(rb.switchSeqs),
-			"rule": "one evaluation = one fresh OS process (cold tables) running 2-8 tasks (real goroutines, 1-3 operations each, biased to first use of both lazy basepoint tables) under the seeded scheduler, which decides every context switch at statement-level yield points spliced into a build-time copy of both packages; policies: random (hot/cold site probabilities) and PCT-style (1-3 forced pre-emptions); followed by a sequential warm re-execution and a sequential cold reference process; non-trivial and distinct = distinct switch sequence (hash over (site, from, to) of every context switch), counted separately for the plain and the -race wave and summed",
-			"samples":             samples,
-			"plain_runs":          pb.runs,
-			"race_runs":           rb.runs,
-			"runs_per_hour":       int(float64(pb.runs+rb.runs) / wall * 3600),
-			"simulated_time":      "the library has no clock; coverage is reported in yield points executed",
-			"yield_points_executed": pb.stats["yields"] + rb.stats["yields"],
-			"context_switches":    pb.stats["switches"] + rb.stats["switches"],
+			"evaluations":                     pb.runs + rb.runs,
+			"distinct_nontrivial":             len(pb.switchSeqs) + len(rb.switchSeqs),
+			"rule":                            "one evaluation = one fresh OS process (cold tables) running 2-8 tasks (real goroutines, 1-3 operations each, biased to first use of both lazy basepoint tables) under the seeded scheduler, which decides every context switch at statement-level yield points spliced into a build-time copy of both packages; policies: random (hot/cold site probabilities) and PCT-style (1-3 forced pre-emptions); followed by a sequential warm re-execution and a sequential cold reference process; non-trivial and distinct = distinct switch sequence (hash over (site, from, to) of every context switch), counted separately for the plain and the -race wave and summed",
+			"samples":                         samples,
+			"plain_runs":                      pb.runs,
+			"race_runs":                       rb.runs,
+			"runs_per_hour":                   int(float64(pb.runs+rb.runs) / wall * 3600),
+			"simulated_time":                  "the library has no clock; coverage is reported in yield points executed",
+			"yield_points_executed":           pb.stats["yields"] + rb.stats["yields"],
+			"context_switches":                pb.stats["switches"] + rb.stats["switches"],
 			"distinct_switch_sequences_plain": len(pb.switchSeqs),
 			"distinct_switch_sequences_race":  len(rb.switchSeqs),
-			"distinct_event_logs": len(pb.hashes),
+			"distinct_event_logs":             len(pb.hashes),
 			"fault_kinds_fired": map[string]int64{
-				"preempt":                              pb.stats["switches"] + rb.stats["switches"],
-				"preempt_inside_first_use_code":        pb.stats["preempt_inside_first_use_code"] + rb.stats["preempt_inside_first_use_code"],
-				"preempt_inside_once_closure":          pb.stats["preempt_inside_once_closure"] + rb.stats["preempt_inside_once_closure"],
+				"preempt":                                          pb.stats["switches"] + rb.stats["switches"],
+				"preempt_inside_first_use_code":                    pb.stats["preempt_inside_first_use_code"] + rb.stats["preempt_inside_first_use_code"],
+				"preempt_inside_once_closure":                      pb.stats["preempt_inside_once_closure"] + rb.stats["preempt_inside_once_closure"],
 				"first_use_attempt_while_construction_in_progress": pb.stats["gate_blocks"] + rb.stats["gate_blocks"],
-				"cold_process":                         int64(pb.runs + rb.runs),
+				"cold_process":                                     int64(pb.runs + rb.runs),
 			},
 			"reach_probes": map[string]int64{
-				"tasks_total": pb.stats["tasks"] + rb.stats["tasks"],
-				"first_use_write_sites_checked": pb.stats["first_use_write_sites"] + rb.stats["first_use_write_sites"],
-				"runs_with_first_use_code":      pb.stats["runs_with_first_use_code"] + rb.stats["runs_with_first_use_code"],
+				"tasks_total":                              pb.stats["tasks"] + rb.stats["tasks"],
+				"first_use_write_sites_checked":            pb.stats["first_use_write_sites"] + rb.stats["first_use_write_sites"],
+				"runs_with_first_use_code":                 pb.stats["runs_with_first_use_code"] + rb.stats["runs_with_first_use_code"],
 				"first_use_only_statements_cold_total":     pb.stats["first_use_only_statements_cold"] + rb.stats["first_use_only_statements_cold"],
 				"first_use_only_statements_repeated_total": pb.stats["first_use_only_statements_repeated"] + rb.stats["first_use_only_statements_repeated"],
-				"sync_gate_calls":               pb.stats["gate_calls"] + rb.stats["gate_calls"],
+				"sync_gate_calls":                          pb.stats["gate_calls"] + rb.stats["gate_calls"],
 			},
 			"data_race_reports":  len(rb.races),
 			"unreached_required": unreached,
